@@ -22,6 +22,23 @@ CHECKS = {
             "oracles. Exploration.",
             "Trusts json and the field-wise canonicalisation in the checker.",
             "DESIGN.md §3 C03"),
+    "C07": ("stateful property-based testing: Hypothesis-generated topology-building programs, invariants (published "
+            "rules transliterated, containment, name scopes, views) evaluated on the extracted model after every call",
+            "Programs of 8-60 API calls over the whole building alphabet on both topology flavours, names fresh or "
+            "colliding, ids generated or caller-supplied, stored or fresh handles; after EVERY call (also a failing "
+            "one) the model is extracted and checked. Regions behind recorded findings are excluded by construction "
+            "and counted. Exploration.",
+            "Trusts the checker's transliteration of graph_validation_rules.json (vocabularies are read from the file) "
+            "and its independent ownership traversal (engines/topo.py Snap).",
+            "DESIGN.md §3 C07"),
+    "C08": ("stateful property-based testing: generated building programs, then EVERY applicable removal operation "
+            "tried on a copy of the final state and compared with a predicted post-state",
+            "For each generated topology every applicable remove/disconnect/unpeer/prune operation (up to 3 targets "
+            "per kind) is executed on its own copy; the post-state must equal pre-state minus (owned structure + "
+            "peering artefacts), survivors and their connections unchanged, operation handles consistent with fresh "
+            "lookups. Exploration.",
+            "Trusts the ownership/artefact prediction (my reading of the statement) and the serialize+load state copy.",
+            "DESIGN.md §3 C08"),
     "C12": ("property-based testing (Hypothesis): delegation-set round trips and rejection probes, pool regrouping "
             "round trip, and annotation of generated substrate models read back",
             "Generated delegation sets (all formats, label/capacity details), pool families (k pools x defining node x "
